@@ -109,6 +109,32 @@ def gen_case(rng, tier, n=None, blocks=None, merge=None):
         X = sig6(X)
     c = tail(rng, 1, 4, [9, 17, 33, 65, 129], 0.04)
     gmm = _gen_machine(rng, X, c)
+    special = []
+    if rng.random() < 0.08:
+        # samples that coincide exactly with a mean
+        mm = A(gmm["means"])
+        for _ in range(rng.randint(1, 3)):
+            X[rng.randrange(n)] = mm[rng.randrange(c)]
+        special.append("sample_equals_mean")
+    if c >= 2 and rng.random() < 0.08:
+        # two identical components: exactly equal likelihoods, exactly tied responsibilities
+        mm, vv, ww = A(gmm["means"]), A(gmm["variances"]), A(gmm["weights"])
+        a, b = rng.sample(range(c), 2)
+        mm[b], vv[b] = mm[a], vv[a]
+        if rng.random() < 0.5:
+            ww[b] = ww[a]
+        if isinstance(gmm["floor"], list) and np.ndim(gmm["floor"]) == 2:
+            fl = A(gmm["floor"])
+            fl[b] = fl[a]
+            gmm["floor"] = L(fl)
+        gmm.update(means=L(mm), variances=L(vv), weights=L(ww))
+        special.append("twin_components")
+    if rng.random() < 0.06:
+        # quantised samples (sensor counts): many exactly equal values and rows
+        sd = X.std(axis=0) + 1e-3 * (np.abs(X).max(axis=0) + 1e-12)
+        q = 2.0 ** np.round(np.log2(sd * rng.choice([0.25, 0.5, 1.0])))
+        X = np.round(X / q) * q
+        special.append("quantised_samples")
     if blocks is None:
         if rng.random() < 0.5:
             comp = random_composition(rng, n, rng.randint(1, n))
@@ -146,7 +172,7 @@ def gen_case(rng, tier, n=None, blocks=None, merge=None):
                     {"type": "da", "chunks": random_composition(rng, len(b))}
                     for b, be in zip(blocks, backends)]
     return {
-        "kind": "mapreduce",
+        "kind": "mapreduce", "special": special,
         "gmm": gmm, "X": L(X), "blocks": blocks, "backends": backends,
         "entry": rng.choice(["acc_stats", "acc_stats", "transform"]),
         "transfer": [rng.choice(["shared", "shared", "copied", "copied", "relaid"]) for _ in range(nb)],
@@ -347,6 +373,8 @@ def run_case(case, replay=None):
         pool.append(st)
     if any(_is_lazy(st) for st in pool):
         rec.probe("lazy_merge")
+    for sp in case.get("special", []):
+        rec.probe("special_" + sp)
 
     # per-block invariants on concrete partials
     def inv(st, want_rows, where):
